@@ -149,6 +149,17 @@ class Worker:
     def call(self, req, timeout=20.0):
         """Run one request. Returns the response dict; a dead or hung worker is reported as
         {"status": "died"|"timeout", ...} and the process is replaced."""
+        for attempt in range(3):
+            r = self._call(req, timeout)
+            # A worker that had already retired (it exits after reporting a panic) never printed
+            # BEGIN for this request: that is not an observation about this case - ask again.
+            if r.get("status") == "died" and not r.get("began") and attempt < 2:
+                continue
+            if r.get("status") == "panic" and not req.get("keep_after_panic"):
+                self.stop()
+            return r
+
+    def _call(self, req, timeout):
         if self.proc is None or self.proc.poll() is not None or self.served > 50000:
             self.stop()
             self.start()
@@ -316,19 +327,21 @@ class Report:
         printed = 0
         seen_kinds = {}
         for v in unknown:
+            k = v["kind"]
+            seen_kinds[k] = seen_kinds.get(k, 0) + 1
+            if seen_kinds[k] > 40:
+                continue  # enough replay files of this kind; the count in the evidence stays complete
             digest = sha(json.dumps(v, sort_keys=True, default=str))[:16]
             os.makedirs(rdir, exist_ok=True)
             path = os.path.join(rdir, digest + ".json")
             with open(path, "w") as f:
                 json.dump({"property": self.prop, "tier": self.tier, **v}, f, indent=1, default=str)
-            k = v["kind"]
-            seen_kinds[k] = seen_kinds.get(k, 0) + 1
             if seen_kinds[k] <= 5 and printed < 40:
                 printed += 1
                 print(f"VIOLATION property={self.prop} replay={path}", flush=True)
                 log(f"  kind={k} detail={str(v['detail'])[:300]}")
         if len(unknown) > printed:
-            log(f"  ({len(unknown)-printed} further violations written to {rdir})")
+            log(f"  ({len(unknown)-printed} further violations; up to 40 replay files per kind in {rdir})")
         cov.setdefault("samples", [])
         cov["known_findings_matched"] = {k: c for k, (e, c, _) in matched.items()}
         if self.caps:
